@@ -2200,7 +2200,9 @@ def _get_error_context(input_, token):
 
     i = max(input_.rfind('\n', 0, lexpos), 0)
     line = input_[i:lexpos] + line
-    lines = [line.strip('\r\n')]
+    # Remove the line end characters, but keep any CR characters at the begin
+    # of the line, because the position indicator line is built from this line
+    lines = [line.lstrip('\n').rstrip('\r\n')]
     col = lexpos - i
     while len(lines) < 5 and i > 0:
         end = i
